@@ -387,6 +387,9 @@ pub fn run_case(case: &ParCase, stats: &mut Stats, miri: bool) -> Result<ParInfo
                 if inp.family == "garbage" {
                     stats.inc("fault.corruption.pure_garbage");
                 }
+                if inp.family == "degenerate" {
+                    stats.inc("fault.corruption.degenerate_string");
+                }
                 None
             } else {
                 Some(with_world!(world as usize, W, W::tier(is64, &inp.int, &inp.frac, inp.exp)))
@@ -687,9 +690,61 @@ fn gen_hammer_case(seed: u64, cfg: &GenCfg) -> ParCase {
     }
 }
 
+/// Long call histories on one thread: `k` calls with one request, then a different one,
+/// twice over — for state that only misbehaves after a particular *number* of preceding
+/// calls (counters, pacing heuristics, periodically refreshed scratch).
+fn gen_marathon_case(seed: u64, cfg: &GenCfg) -> ParCase {
+    let mut r = Rng::new(seed ^ 0x3A7A);
+    // A: a long request the middle stage decides; B: a near-halfway one for the big-integer tier
+    let mut a = gen::draw_input(&mut r, Mix::Balanced, true, false);
+    for _ in 0..50 {
+        if a.family.starts_with("long") || a.family.starts_with("moderate") || a.family.starts_with("fast") {
+            break;
+        }
+        a = gen::draw_input(&mut r, Mix::Balanced, true, false);
+    }
+    let mut b = gen::draw_input(&mut r, Mix::Balanced, true, false);
+    for _ in 0..50 {
+        if b.family.starts_with("halfway") && b.digits() > 19 && b.digits() < 400 {
+            break;
+        }
+        b = gen::draw_input(&mut r, Mix::Balanced, true, false);
+    }
+    let is64 = !b.family.ends_with("f32");
+    let world = *r.pick(&[0u8, 0, 1, 2, 3, 4]);
+    let sl = ShapeSpec::slice;
+    let mut ops = Vec::new();
+    for _ in 0..2 {
+        let k = 1 + r.usize_below(130);
+        for _ in 0..k {
+            ops.push(POp::Parse { world, f64: is64, input: 0, si: sl(), sf: sl() });
+        }
+        ops.push(POp::Parse { world, f64: is64, input: 1, si: sl(), sf: sl() });
+    }
+    ParCase {
+        property: cfg.property.to_string(),
+        inputs: vec![a, b],
+        tasks: vec![ops],
+        sched: SchedSpec { kind: SchedKind::Sequential, seed: 0 },
+        yield_mode: sched::YIELD_NONE,
+        poison_ref: Some(0x5EED_0001),
+        poison_run: Some(r.next_u64() | 2),
+        fill: None,
+        stack_kib: 512,
+        lib_mask: 0,
+        lib_every: 1,
+        hammer: false,
+        ref_after: r.chance(1, 2),
+        poison_mode: 0,
+    }
+}
+
 pub fn gen_case(seed: u64, cfg: &GenCfg) -> ParCase {
     let mut r = Rng::new(seed);
     let prop = cfg.property;
+    if !cfg.miri && prop == "C16" && r.chance(1, 48) {
+        return gen_marathon_case(seed, cfg);
+    }
     if cfg.miri && prop == "C16" && r.chance(1, 2) {
         return gen_hammer_case(seed, cfg);
     }
@@ -950,7 +1005,37 @@ pub fn gen_case_c08(seed: u64, cfg: &GenCfg) -> ParCase {
     let mut ops = Vec::new();
     let n = if cfg.miri { 1 } else { 1 + r.usize_below(3) };
     for k in 0..n {
-        let inp = if r.chance(1, 8) {
+        let inp = if r.chance(1, if cfg.miri { 4 } else { 10 }) {
+            // degenerate strings: the precondition violations the statement names ("leading or
+            // trailing zeros, any lengths") in their purest form
+            let part = |r: &mut Rng| -> Vec<u8> {
+                let n = *r.pick(&[0usize, 1, 2, 8, 18, 19, 20, 21, 27, 38, 39, 113, 114, 115, 768, 769, 770]);
+                match r.below(8) {
+                    0 => Vec::new(),
+                    1 | 2 => vec![b'0'; n],
+                    3 => vec![b'9'; n],
+                    4 => vec![0xFF; n],
+                    5 => vec![*r.pick(&[0x00u8, b'/', b':', 0x80, b' ']); n],
+                    6 => {
+                        let mut v = vec![b'0'; n];
+                        v.push(b'1');
+                        v
+                    },
+                    _ => {
+                        let mut v = vec![b'1'];
+                        v.extend(std::iter::repeat(b'0').take(n));
+                        v
+                    },
+                }
+            };
+            let (int, frac) = (part(&mut r), part(&mut r));
+            Input {
+                int,
+                frac,
+                exp: *r.pick(&[0, 0, 1, -1, 19, -19, 20, -20, 308, -308, -324, -342, -343, 309, 400, -400, i32::MAX, i32::MIN, i32::MIN + 1, i32::MAX - 1]),
+                family: "degenerate".into(),
+            }
+        } else if r.chance(1, 8) {
             // pure garbage
             let mi = if r.chance(1, 10) { 3000 } else { 40 };
             let li = r.usize_below(mi);
